@@ -4,7 +4,7 @@
    options Opt) and in the number of sub-environments (arbitrary lists), and quantify over arbitrary
    op lists. *)
 From Coq Require Import List ZArith Bool.
-From SB3V Require Import Gen.Frag_vecenv Model.Script Model.VecEnv Model.OnPolicyCollect Model.VecAttr Proofs.VecEnvProofs Proofs.VecEnvTieProofs Proofs.VecAttrProofs.
+From SB3V Require Import Gen.Frag_vecenv Model.Script Model.VecEnv Model.OnPolicyCollect Model.VecAttr Proofs.VecEnvProofs Proofs.VecEnvTieProofs Proofs.VecAttrProofs Model.EnvUtil Proofs.EnvUtilProofs.
 Import ListNotations.
 Local Open Scope nat_scope.
 
@@ -208,6 +208,54 @@ Theorem C01_holders_outermost_first : forall name layers base d,
 Proof. exact holders_sorted. Qed.
 Print Assumptions C01_holders_outermost_first.
 
+(* --- env_util.py: unwrap_wrapper / is_wrapped (also vec_env.unwrap_vec_wrapper / is_vecenv_wrapped: the same loop
+       over .venv) and make_vec_env --- *)
+Theorem C01_unwrap_outermost : forall (L : Type) (is_inst : L -> bool) chain l,
+  unwrap is_inst chain = Some l <->
+  exists pre post, chain = pre ++ l :: post /\ is_inst l = true /\ forallb (fun x => negb (is_inst x)) pre = true.
+Proof. exact (@unwrap_outermost). Qed.
+Print Assumptions C01_unwrap_outermost.
+
+Theorem C01_unwrap_none_and_is_wrapped : forall (L : Type) (is_inst : L -> bool) chain,
+  (unwrap is_inst chain = None <-> forallb (fun x => negb (is_inst x)) chain = true) /\
+  is_wrapped is_inst chain = existsb is_inst chain.
+Proof. exact (fun L is_inst chain => conj (unwrap_none is_inst chain) (is_wrapped_spec is_inst chain)). Qed.
+Print Assumptions C01_unwrap_none_and_is_wrapped.
+
+Theorem C01_make_vec_env_envs : forall n seed drawn start dir wc i,
+  i < n ->
+  let d := nth i (fst (make_vec_env n seed drawn start dir wc)) (mk_desc 0 None []) in
+  length (fst (make_vec_env n seed drawn start dir wc)) = n /\
+  d_rank d = i + start /\
+  d_action_seed d = match seed with Some s => Some (s + Z.of_nat (i + start))%Z | None => None end /\
+  unwrap is_monitor (d_layers d) = Some (GMonitor (match dir with Some x => Some (x, i + start) | None => None end)) /\
+  d_layers d = (match wc with Some c => [GWrapper c] | None => [] end)
+               ++ [GMonitor (match dir with Some x => Some (x, i + start) | None => None end)].
+Proof. exact make_vec_env_envs. Qed.
+Print Assumptions C01_make_vec_env_envs.
+
+Theorem C01_make_vec_env_monitor_files_distinct : forall n seed drawn start dir wc i j,
+  i < n -> j < n -> i <> j ->
+  d_rank (nth i (fst (make_vec_env n seed drawn start dir wc)) (mk_desc 0 None []))
+  <> d_rank (nth j (fst (make_vec_env n seed drawn start dir wc)) (mk_desc 0 None [])).
+Proof. exact make_vec_env_monitor_files_distinct. Qed.
+Print Assumptions C01_make_vec_env_monitor_files_distinct.
+
+(* make_vec_env ends with vec_env.seed(seed): through C01_vec_seed_delivery the first reset() gives seed + i to env i *)
+Theorem C01_make_vec_env_first_reset_seeds : forall E O A I Opt
+  (e_step : E -> A -> E * (O * Z * bool * bool * I)) (e_reset : E -> option Z -> option Opt -> E * (O * I))
+  (envs : list E) n seed drawn start dir wc i e (mid post : list (vop A Opt)),
+  length envs = n -> nth_error envs i = Some e ->
+  let s := snd (make_vec_env n seed drawn start dir wc) in
+  Forall (wf_vop (length envs)) (([] ++ VSeed s :: mid) ++ VReset :: post) ->
+  forallb vquiet mid = true ->
+  s = match seed with Some x => x | None => drawn end /\
+  exists out obs ri o,
+    nth_error (vrun e_step e_reset (vinit envs) (([] ++ VSeed s :: mid) ++ VReset :: post)) (length ([] ++ VSeed s :: mid)) = Some out /\
+    proj_out i out = Some (SOReset obs ri [CReset (Some (s + Z.of_nat i)%Z) o]).
+Proof. exact (@make_vec_env_first_reset_seeds). Qed.
+Print Assumptions C01_make_vec_env_first_reset_seeds.
+
 (* ---------- non-vacuity: the hypotheses are satisfiable on concrete, non-trivial data ---------- *)
 Definition ex_sc1 : script :=
   [mk_episode 10 1 [mk_sstep 11 (-3) false false 5; mk_sstep 12 4 true true 6]; mk_episode 20 2 [mk_sstep 21 1 false true 7]].
@@ -255,3 +303,9 @@ Example ex_getattr :
   py_getattr 9%Z [[(5, 50)]; [(7, 70)]; []]%Z [(7, 71); (8, 80)]%Z = NoAttribute /\
   py_getattr 7%Z [[(7, 70)]; [(7, 72)]]%Z [(7, 71)]%Z = Value 70%Z.
 Proof. repeat split; reflexivity. Qed.
+
+Example ex_make_vec_env :
+  make_vec_env 2 (Some 10%Z) 0%Z 3 (Some 77%Z) (Some 5%Z)
+  = ([mk_desc 3 (Some 13%Z) [GWrapper 5%Z; GMonitor (Some (77%Z, 3))]; mk_desc 4 (Some 14%Z) [GWrapper 5%Z; GMonitor (Some (77%Z, 4))]], 10%Z) /\
+  unwrap (fun l => match l with GWrapper c => Z.eqb c 5 | _ => false end) [GWrapper 4%Z; GWrapper 5%Z; GMonitor None; GWrapper 5%Z] = Some (GWrapper 5%Z).
+Proof. split; reflexivity. Qed.
